@@ -1137,6 +1137,14 @@ class RpcServer:
         # the outer one handles streaming errors.  Only one access log fires per call.
         try:
             result: Stream[StreamState, Any] = getattr(self._impl, info.name)(**kwargs)
+            # Implementation faults are answered like any other init error.  Left
+            # unchecked they surface below as AttributeError / TypeError outside
+            # every handler, escape serve_one and end the serve loop: the client
+            # waits for a reply that is never written and the connection is lost.
+            if not isinstance(result, Stream):
+                raise TypeError(f"Method '{info.name}' must return a Stream, got {type(result).__name__}")
+            if info.header_type is not None and result.header is None:
+                raise TypeError(f"Method '{info.name}' declares header type but returned header=None")
         except Exception as exc:
             _hook_exc = exc
             status = "error"
